@@ -136,6 +136,103 @@ Theorem C13_operate_pointwise_exact :
 Proof. exact operate_refines_exact. Qed.
 Print Assumptions C13_operate_pointwise_exact.
 
+(* ---------- the IEEE-754 binary64 instance (Spec/ArithIeee.v on Base/Float64Py.v).
+   Stated for EVERY implementation F of the four basic operations (a record of functions on the exact dyadic
+   values): the theorems do not depend on Coq's primitive floats.  The correspondence runs F = prim_fops
+   (PrimFloat.add/sub/mul/div under vm_compute); F = spec_fops is the standard library's pure specification. *)
+From DM Require Import Base.Float64Py Spec.ArithIeee Proofs.ArithIeeeFacts Proofs.ArithIeeeGrid.
+
+(* the instance satisfies the hypotheses of the refinement theorems: x * y = y * x, NaN propagates *)
+Theorem C13_ieee_instance :
+  forall F : fops,
+  (forall a b, ieee_op_gen F OMul a b = ieee_op_gen F OMul b a) /\
+  (forall op a b, pow_unit op a b = false -> num_is_nan a || num_is_nan b = true -> num_is_nan (ieee_op_gen F op a b) = true).
+Proof. exact (fun F => conj (ieee_op_mul_comm F) (ieee_op_nan F)). Qed.
+Print Assumptions C13_ieee_instance.
+
+Theorem C13_operate_pointwise_ieee :
+  forall (F : fops) fstr d c o r, operate (ieee_op_gen F) fstr d c o = Ok r ->
+  exists xs, operand_cells (ckind c) o (List.length (ccells c)) = Ok xs /\
+             r = Col (ckind c) (cids c) (spec_cells (ieee_op_gen F) fstr (ckind c) (dunder_op d) (dunder_refl d) (ccells c) xs).
+Proof. exact operate_refines_ieee. Qed.
+Print Assumptions C13_operate_pointwise_ieee.
+
+(* what the instance is: int o int is the exact big-integer instance; int / int is the exact quotient rounded once;
+   as soon as a float is involved both sides become binary64 values (float(int), round to nearest even) and the
+   float operation is applied *)
+Theorem C13_ieee_int_int_exact :
+  forall (F : fops) op x y, op <> OTruediv -> ieee_op_gen F op (NInt x) (NInt y) = exact_op op (NInt x) (NInt y).
+Proof. exact ieee_op_int_int. Qed.
+Print Assumptions C13_ieee_int_int_exact.
+
+Theorem C13_ieee_int_truediv :
+  forall (F : fops) x y, y <> 0 -> ieee_op_gen F OTruediv (NInt x) (NInt y) = NFlt (fl_div_ZZ x y).
+Proof. exact ieee_op_int_truediv. Qed.
+Print Assumptions C13_ieee_int_truediv.
+
+Theorem C13_ieee_float_converts_first :
+  forall (F : fops) o op a b, fop_of op = Some o -> num_is_int a && num_is_int b = false ->
+  ieee_op_gen F op a b = NFlt (fl_op F o (num_to_fl a) (num_to_fl b)).
+Proof. exact ieee_op_float. Qed.
+Print Assumptions C13_ieee_float_converts_first.
+
+(* fmod (the first step of // and %) is exact: x - trunc(x / y) * y on the common grid 2^e *)
+Theorem C13_fmod_exact :
+  forall sx mx ex sy my ey,
+  let e := Z.min ex ey in
+  let X := Z.pos mx * 2 ^ (ex - e) in let Y := Z.pos my * 2 ^ (ey - e) in
+  fl_fmod (FFin sx mx ex) (FFin sy my ey) = mk_fin sx (X - Z.quot X Y * Y) e.
+Proof. exact fl_fmod_exact. Qed.
+Print Assumptions C13_fmod_exact.
+
+(* TESTED, not proved for all inputs: on the grid of Spec/ArithIeee.v (51 numbers, all pairs, + - * / // %;
+   7177 of the 15606 points are computed by the exact instance with a binary64 result) the exact instance and the
+   IEEE instance yield the same value wherever the exact one is defined.  SpecFloat instance: a closed term. *)
+Theorem C13_ieee_consistent_with_exact_on_grid_spec : on_grid (consistent_at spec_fops) = true.
+Proof. exact grid_consistent_spec. Qed.
+Print Assumptions C13_ieee_consistent_with_exact_on_grid_spec.
+
+(* The same for the primitive-float instance, and primitive = SpecFloat bit for bit on the whole grid.  These two
+   rest on Coq's primitive operations, which `Print Assumptions` lists (as "Axioms:", they are kernel primitives):
+     PrimFloat.float, add, sub, mul, div, opp, abs, eqb, ltb, of_uint63, normfr_mantissa, frshiftexp, ldshiftexp;
+     PrimInt63.int, lsl, lsr, lor, land, eqb                                 (these 19, nothing else)
+   so they are kept as Examples without a Print Assumptions line. *)
+Example C13_ieee_consistent_with_exact_on_grid_prim : on_grid (consistent_at prim_fops) = true.
+Proof. exact grid_consistent_prim. Qed.
+Example C13_ieee_prim_same_as_specfloat_on_grid : on_grid (same_at prim_fops spec_fops) = true.
+Proof. exact grid_prim_same_as_spec. Qed.
+Example C13_grid_size : N.of_nat (List.length grid) = 51%N /\ N.of_nat (count_grid op_defined) = 7177%N.
+Proof. exact grid_size. Qed.
+
+(* rounding made visible (primitive floats under vm_compute) *)
+Example C13_ex_point1_plus_point2 :       (* 0.1 + 0.2 = 0.30000000000000004 *)
+  ieee_op OAdd (NFlt (FFin false 3602879701896397 (-55))) (NFlt (FFin false 3602879701896397 (-54)))
+  = NFlt (FFin false 1351079888211149 (-52)).
+Proof. vm_compute. reflexivity. Qed.
+Example C13_ex_third :                    (* 1 / 3 = 0.3333333333333333 (two ints: the exact quotient rounded once) *)
+  ieee_op OTruediv (NInt 1) (NInt 3) = NFlt (FFin false 6004799503160661 (-54)).
+Proof. vm_compute. reflexivity. Qed.
+Example C13_ex_big_int_to_float :         (* (2^53 + 1) - 1.0 = 2^53 - 1.0: the int is rounded first *)
+  ieee_op OSub (NInt 9007199254740993) (NFlt (FFin false 1 0)) = NFlt (FFin false 9007199254740991 0).
+Proof. vm_compute. reflexivity. Qed.
+Example C13_ex_overflow_inf_nan :         (* 1e308 * 10 = inf; inf - inf = nan; 0.0 * inf = nan; 5e-324 / 2 = 0.0 *)
+  ieee_op OMul (NFlt (FFin false 156575653125701 976)) (NInt 10) = NFlt (FInf false) /\
+  ieee_op OSub (NFlt (FInf false)) (NFlt (FInf false)) = NFlt FNan /\
+  ieee_op OMul (NFlt (FZero false)) (NFlt (FInf false)) = NFlt FNan /\
+  ieee_op OTruediv (NFlt (FFin false 1 (-1074))) (NInt 2) = NFlt (FZero false).
+Proof. vm_compute. repeat split; reflexivity. Qed.
+Example C13_ex_floordiv_mod :             (* 1e16 // 1.5 = 6666666666666667.0 (not the exact floor); -7.5 % 2 = 0.5; 1.0 % 0.1 = 0.09999999999999995 *)
+  ieee_op OFloordiv (NFlt (FFin false 152587890625 16)) (NFlt (FFin false 3 (-1))) = NFlt (FFin false 6666666666666667 0) /\
+  ieee_op OMod (NFlt (FFin true 15 (-1))) (NInt 2) = NFlt (FFin false 1 (-1)) /\
+  ieee_op OMod (NFlt (FFin false 1 0)) (NFlt (FFin false 3602879701896397 (-55))) = NFlt (FFin false 3602879701896395 (-55)).
+Proof. vm_compute. repeat split; reflexivity. Qed.
+Example C13_ex_ieee_column :              (* FloatColumn [0.1; nan; 1e308] * 10 *)
+  spec_operate ieee_op (fstr_tab []) OMul true
+    (Col KFloat [2%N; 0%N; 1%N] [VFlt (FFin false 3602879701896397 (-55)); VFlt FNan; VFlt (FFin false 156575653125701 976)])
+    (OScalar (PInt 10))
+  = Ok (Col KFloat [2%N; 0%N; 1%N] [VFlt (FFin false 1 0); VFlt FNan; VFlt (FInf false)]).
+Proof. vm_compute. reflexivity. Qed.
+
 (* non-vacuity *)
 Open Scope string_scope.
 Example C13_ex1 :
@@ -193,6 +290,12 @@ Theorem C13_series_per_sample :
   nth j (nth i (srows r) []) FNan = scell num_op op refl (nth j (nth i (srows c) []) FNan) (nth j xs (NInt 0)).
 Proof. exact spec_series_per_sample. Qed.
 Print Assumptions C13_series_per_sample.
+
+Theorem C13_series_refines_ieee :
+  forall (F : fops) d c o,
+  series_operate (ieee_op_gen F) d c o = spec_series (ieee_op_gen F) (dunder_op d) (dunder_refl d) c o.
+Proof. exact series_refines_ieee. Qed.
+Print Assumptions C13_series_refines_ieee.
 
 Example C13_ex5 :
   series_operate exact_op DRSub (SCol 2 [4%N; 0%N] [[FFin false 1 0; FNan]; [FFin false 3 0; FFin false 1 (-1)]]) (SVec [NInt 1; NInt 5])
